@@ -238,6 +238,12 @@ func (c *Cholesky) SolveTo(dst *Dense, b Matrix) error {
 	}
 
 	dst.reuseAsNonZeroed(bm, bn)
+	if bU, _ := untranspose(b); dst == bU && b != dst {
+		// dst is b under transposition: solve in a workspace.
+		var restore func()
+		dst, restore = dst.isolatedWorkspace(bU)
+		defer restore()
+	}
 	if b != dst {
 		dst.Copy(b)
 	}
@@ -794,6 +800,12 @@ func (ch *BandCholesky) SolveTo(dst *Dense, b Matrix) error {
 		panic(ErrShape)
 	}
 	dst.reuseAsNonZeroed(br, bc)
+	if bU, _ := untranspose(b); dst == bU && b != dst {
+		// dst is b under transposition: solve in a workspace.
+		var restore func()
+		dst, restore = dst.isolatedWorkspace(bU)
+		defer restore()
+	}
 	if b != dst {
 		dst.Copy(b)
 	}
@@ -1151,6 +1163,12 @@ func (c *PivotedCholesky) SolveTo(dst *Dense, b Matrix) error {
 	}
 
 	dst.reuseAsNonZeroed(bm, bn)
+	if bU, _ := untranspose(b); dst == bU && b != dst {
+		// dst is b under transposition: solve in a workspace.
+		var restore func()
+		dst, restore = dst.isolatedWorkspace(bU)
+		defer restore()
+	}
 	if dst != b {
 		dst.Copy(b)
 	}
